@@ -49,12 +49,13 @@ type gsched struct {
 	locked map[*Cell]bool
 	rcount map[*Cell]int
 	sbuf   map[*Cell]*strings.Builder
+	pools  map[*Cell][]Value
 }
 
 func (ex *Exec) schedReset() {
 	ex.schedStop()
 	main := &gstate{resume: make(chan struct{}, 1)}
-	ex.sch = &gsched{gs: []*gstate{main}, cur: main, wg: map[*Cell]int{}, locked: map[*Cell]bool{}, rcount: map[*Cell]int{}, sbuf: map[*Cell]*strings.Builder{}}
+	ex.sch = &gsched{gs: []*gstate{main}, cur: main, wg: map[*Cell]int{}, locked: map[*Cell]bool{}, rcount: map[*Cell]int{}, sbuf: map[*Cell]*strings.Builder{}, pools: map[*Cell][]Value{}}
 }
 
 // schedStop unwinds every interpreted goroutine that is still parked (end of a path).
@@ -394,6 +395,28 @@ func init() {
 	})
 	add("(*sync.RWMutex).RUnlock", func(ex *Exec, _ *ssa.Function, a []Value, _ ssa.Instruction) Value {
 		ex.sch.rcount[cellArg(a)]--
+		return nil
+	})
+
+	// sync.Pool: a free list per pool object; Get falls back to New (last field of the struct)
+	add("(*sync.Pool).Get", func(ex *Exec, _ *ssa.Function, a []Value, site ssa.Instruction) Value {
+		c := cellArg(a)
+		if l := ex.sch.pools[c]; len(l) > 0 {
+			v := l[len(l)-1]
+			ex.sch.pools[c] = l[:len(l)-1]
+			return v
+		}
+		so := c.v.(*StructObj)
+		if nf := ex.load(so.f[len(so.f)-1]); !isNilValue(nf) && nf != nil {
+			return ex.callValue(nf, nil, site)
+		}
+		return nil
+	})
+	add("(*sync.Pool).Put", func(ex *Exec, _ *ssa.Function, a []Value, _ ssa.Instruction) Value {
+		c := cellArg(a)
+		if a[1] != nil {
+			ex.sch.pools[c] = append(ex.sch.pools[c], a[1])
+		}
 		return nil
 	})
 
